@@ -150,6 +150,11 @@ def to_surfaces_mcnp(key, parsed_surface, transform_parsed):
     (±1).'''
     bound_cond, transform_id, type_surface, params = parsed_surface
     enum_surface = string_to_enum(type_surface)
+    if enum_surface in (MS.C, MS.K, MS.T):
+        # general cylinders, cones and tori only exist as the result of a
+        # transformation: MCNP has no such mnemonics
+        raise ValueError(f'{type_surface.upper()}: The type of this surface '
+                         'does not exist')
     if enum_surface in (MS.BOX, MS.RPP, MS.SPH, MS.RCC, MS.HEX, MS.RHP, MS.REC,
                         MS.TRC, MS.ELL, MS.WED, MS.ARB):
         return to_surfaces_macro(key, bound_cond, transform_id, enum_surface,
